@@ -1302,6 +1302,10 @@ class ComputeGraph(MultiDiGraph):
                 # replaced by its value (backend functions do not accept Python numbers, Fortran no integer literal)
                 expr = Float(_numeric_funcs[expr.func.__name__](*[float(a) for a in expr.args]))
             else:
+                if isinstance(expr, AppliedUndef) and expr.func.__name__ in ('maxi', 'mini') and \
+                        any(a.is_Integer for a in expr.args):
+                    # maxi(x, 1): typed backends (Fortran's min/max) need arguments of one type
+                    expr = expr.func(*[Float(int(a)) if a.is_Integer else a for a in expr.args])
                 try:
                     expr_old = expr.func.__name__
                     func_info = self.get_op(expr_old, shape=node.shape)
